@@ -93,7 +93,9 @@ class ZoomingOracle(Oracle):
         calls = [c for c in ctx.round_calls() if c["partition"] is algo.partition]
         thr = self.nu * self.rho ** cell.get_depth()
         verdicts = set()
-        for ph in {phase_of(t), phase_of(t + 1)}:
+        # the radius is the state quantity an observer sees after receive_reward: phase counter and pull
+        # count as they stand once round t is booked (the same radius the next pull's index uses)
+        for ph in {phase_of(t + 1)}:
             rad = math.sqrt(8 * ph / (2 + n))
             if close(rad, thr):
                 verdicts |= {True, False}
